@@ -200,7 +200,8 @@ pub fn run(tier: &str, seed: u64, out: &str) {
     }
     // fresh instances handed straight to several threads: the very first uses of an instance race each other (keys come
     // from another instance); every call must return what it returns alone - no panic, round trips, distinct secrets
-    {
+    // (not when calls were already found to block: the threads of this phase are joined without a limit)
+    if !fails.iter().any(|f| f["oracle"] == "concurrent-progress") {
         let admin = Covercrypt::default();
         let (mut msk, _) = admin.setup().unwrap();
         msk.access_structure.add_anarchy("D".into()).unwrap();
